@@ -84,14 +84,15 @@ def install(reg: Registry):
                       FA([j], z3.Implies(z3.And(0 <= j, j < o.len(src)), h.at(Lc, j) == VStr(o.f('name', v_a(o.at(src, j))))), [h.at(Lc, j)]))
 
     def ensures(c):
-        o, h, me = c.old, c.h, c.self
-        R = c.res
+        return node_enc(c.old, c.h, c.res, c.self) + old_same(c.old, c.h)
+
+    def node_enc(o, h, R, me):
         DC, DP = dicts(h, R)
         opt = lambda key, cond, val: z3.And(h.has(R, K(key)) == cond, z3.Implies(cond, h.val(R, K(key)) == val))
         ds, es, mi = o.f('defense_status', me), o.f('existence_status', me), o.f('mitre_info', me)
         TL = o.f('tags', me)
         tags_val = h.val(R, K('tags'))
-        return subst_self(shape(o, h, R), me) + old_same(o, h) + [
+        return subst_self(shape(o, h, R), me) + [
             ('children', id_name_map(o, h, DC, o.f('children', me))),
             ('parents', id_name_map(o, h, DP, o.f('parents', me))),
             ('compromised_by', cb_names(o, h, R, me)),
@@ -110,7 +111,120 @@ def install(reg: Registry):
             ('extras', opt('extras', o.size(o.f('extras', me)) > 0, VRef(o.f('extras', me)))),
         ]
 
+    reg.node_enc = node_enc
     reg.add(Contract(MN + ':AttackGraphNode.to_dict', {'self': Obj(NODE)}, returns=Dict(T.str, T.val), ensures=ensures,
                      modifies=LIST_ARRAYS + DICT_ARRAYS + ('cls', 'own_obj'), allocates=True,
                      loops={0: LoopSpec(inv_children, iter_src='self.children'), 1: LoopSpec(inv_parents, iter_src='self.parents')},
                      props=('C10',), no_merge=True, note='mitre_info is a str when present (TYPES); extras is stored by reference, as the code does'))
+
+
+def install_attacker_and_graph(reg: Registry):
+    MG = 'maltoolbox.attackgraph.attackgraph'
+
+    # ---- Attacker.to_dict
+    def a_dicts(h, R):
+        return v_a(h.val(R, K('entry_points'))), v_a(h.val(R, K('reached_attack_steps')))
+
+    def a_shape(o, h, R, me):
+        DE, DR = a_dicts(h, R)
+        k = z3.Const('k!as', Val)
+        return [
+            ('fresh', z3.And(R >= o.alloc, R < h.alloc, h.cls(R) == CLS_DICT)),
+            ('keys', FA([k], h.has(R, k) == z3.Or(*[k == K(x) for x in ('id', 'name', 'entry_points', 'reached_attack_steps')]), [h.has(R, k)])),
+            ('scalars', z3.And(h.val(R, K('id')) == o.f('id', me), h.val(R, K('name')) == VStr(o.f('name', me)))),
+            ('sub-dicts', z3.And(is_VRef(h.val(R, K('entry_points'))), is_VRef(h.val(R, K('reached_attack_steps'))),
+                                 DE >= o.alloc, DR >= o.alloc, DE < h.alloc, DR < h.alloc, DE != DR, DE != R, DR != R,
+                                 h.cls(DE) == CLS_DICT, h.cls(DR) == CLS_DICT)),
+        ]
+
+    def a_inv0(c: LCtx):
+        o, h = c.old, c.h
+        R = c.ret().t
+        DE, DR = a_dicts(h, R)
+        return a_shape(o, h, R, c.self) + old_same(o, h) + [
+            ('entry-so-far', id_name_map(o, h, DE, o.f('entry_points', c.self), done=c.done)),
+            ('reached-none', z3.Select(h.arr['D_has'], DR) == EMPTY_HAS)]
+
+    def a_inv1(c: LCtx):
+        o, h = c.old, c.h
+        R = c.ret().t
+        DE, DR = a_dicts(h, R)
+        return a_shape(o, h, R, c.self) + old_same(o, h) + [
+            ('entry', id_name_map(o, h, DE, o.f('entry_points', c.self))),
+            ('reached-so-far', id_name_map(o, h, DR, o.f('reached_attack_steps', c.self), done=c.done))]
+
+    def a_ensures(c):
+        o, h = c.old, c.h
+        DE, DR = a_dicts(h, c.res)
+        return a_shape(o, h, c.res, c.self) + old_same(o, h) + [
+            ('entry_points', id_name_map(o, h, DE, o.f('entry_points', c.self))),
+            ('reached_attack_steps', id_name_map(o, h, DR, o.f('reached_attack_steps', c.self)))]
+
+    def att_enc(o, h, R, me):
+        DE, DR = a_dicts(h, R)
+        return a_shape(o, h, R, me) + [('entry_points', id_name_map(o, h, DE, o.f('entry_points', me))),
+                                       ('reached_attack_steps', id_name_map(o, h, DR, o.f('reached_attack_steps', me)))]
+
+    # ---- AttackGraph._to_dict : one entry per node keyed by full name, one per attacker keyed by id (C10)
+    def g_requires(c):
+        return [('wf.' + nm, f) for nm, f in wf_graph(c.old, c.self, parts=('W0', 'W1', 'W2', 'W4'))]
+
+    def entries(o, h, D, L, keyof, enc, done=None):
+        """dict D has exactly one entry per (processed) element x of list L, under key keyof(x), and that entry encodes x"""
+        x = A('x!en')
+        k = z3.Const('k!en', Val)
+        inl = (lambda q: z3.Select(done, VRef(q)) > 0) if done is not None else (lambda q: o.cnt(L, q) > 0)
+        pat = [z3.Select(done, VRef(x))] if done is not None else [o.cnt(L, x)]
+        return z3.And(
+            FA([x], z3.Implies(inl(x), z3.And(h.has(D, keyof(x)), is_VRef(h.val(D, keyof(x))), v_a(h.val(D, keyof(x))) >= o.alloc,
+                                              *[f for _, f in enc(o, h, v_a(h.val(D, keyof(x))), x)])), pat),
+            FA([k], z3.Implies(h.has(D, k), z3.Exists([x], z3.And(inl(x), o.cnt(L, x) > 0, keyof(x) == k))), [h.has(D, k)]))
+
+    name_key = lambda o: (lambda x: VStr(full_name_fn(o)[0](x)))
+    id_key = lambda o: (lambda x: o.f('id', x))
+
+    def g_inv(which):
+        def inv(c: LCtx):
+            o, h, G = c.old, c.h, c.self
+            SA, ST = c.local('serialized_attack_steps').t, c.local('serialized_attackers').t
+            out = old_same(o, h) + [
+                ('dicts-fresh', z3.And(SA >= o.alloc, ST >= o.alloc, SA < h.alloc, ST < h.alloc, SA != ST, h.cls(SA) == CLS_DICT, h.cls(ST) == CLS_DICT)),
+            ]
+            if which == 0:
+                out += [('steps-so-far', entries(o, h, SA, nodes_l(o, G), name_key(o), reg.node_enc, done=c.done)),
+                        ('attackers-none', z3.Select(h.arr['D_has'], ST) == EMPTY_HAS)]
+            else:
+                out += [('steps', entries(o, h, SA, nodes_l(o, G), name_key(o), reg.node_enc)),
+                        ('attackers-so-far', entries(o, h, ST, atts_l(o, G), id_key(o), att_enc, done=c.done))]
+            return out
+        return inv
+
+    def g_ensures(c):
+        o, h, G = c.old, c.h, c.self
+        R = c.res
+        SA, ST = v_a(h.val(R, K('attack_steps'))), v_a(h.val(R, K('attackers')))
+        return old_same(o, h) + [
+            ('fresh', z3.And(R >= o.alloc, h.cls(R) == CLS_DICT, h.has(R, K('attack_steps')), h.has(R, K('attackers')),
+                             is_VRef(h.val(R, K('attack_steps'))), is_VRef(h.val(R, K('attackers'))))),
+            ('one-entry-per-node', entries(o, h, SA, nodes_l(o, G), name_key(o), reg.node_enc)),
+            ('one-entry-per-attacker', entries(o, h, ST, atts_l(o, G), id_key(o), att_enc)),
+        ]
+
+    reg.add(Contract(MG + ':AttackGraph._to_dict', {'self': Obj(GRAPH)}, returns=Dict(T.str, T.val), requires=g_requires, ensures=g_ensures,
+                     modifies=LIST_ARRAYS + DICT_ARRAYS + ('cls', 'own_obj'), allocates=True,
+                     loops={0: LoopSpec(g_inv(0), iter_src='self.nodes'), 1: LoopSpec(g_inv(1), iter_src='self.attackers')},
+                     defs=lambda c: [full_name_fn(c.old)[1]],
+                     props=('C10',), note='distinct full names (W2) and distinct attacker ids (W4) make the entries collision-free'))
+
+    reg.add(Contract(MA + ':Attacker.to_dict', {'self': Obj(ATT)}, returns=Dict(T.str, T.val), ensures=a_ensures,
+                     modifies=LIST_ARRAYS + DICT_ARRAYS + ('cls', 'own_obj'), allocates=True,
+                     loops={0: LoopSpec(a_inv0, iter_src='self.entry_points'), 1: LoopSpec(a_inv1, iter_src='self.reached_attack_steps')},
+                     props=('C10',)))
+
+
+_install_s0 = install
+
+
+def install(reg: Registry):
+    _install_s0(reg)
+    install_attacker_and_graph(reg)
